@@ -16,13 +16,17 @@
 (*     permutation of parameters changes the value); exact special points  *)
 (*     and exact algebraic / differential relations for the rest.          *)
 (***************************************************************************)
-EXTENDS Rat, Sequences, FiniteSets, TLC, SequencesExt, FiniteSetsExt, Json, IOUtils
+EXTENDS PolyRows, FiniteSets, TLC, SequencesExt, FiniteSetsExt, Json, IOUtils
 
 Sig == [ bornmayer |-> <<"A", "rho">>, buck |-> <<"A", "rho", "C">>, constant |-> <<"constant">>, coul |-> <<"qi", "qj">>,
          exponential |-> <<"A", "n">>, exp_spline |-> <<"B0", "B1", "B2", "B3", "B4", "B5", "C">>, hbnd |-> <<"A", "B">>,
          lj |-> <<"epsilon", "sigma">>, morse |-> <<"gamma", "r_star", "D">>, sqrt |-> <<"G">>,
-         tang_toennies |-> <<"A", "b", "C_6", "C_8", "C_10">>, zbl |-> <<"z1", "z2">>, zero |-> <<>> ]
+         tang_toennies |-> <<"A", "b", "C_6", "C_8", "C_10">>, zbl |-> <<"z1", "z2">>, zero |-> <<>>,
+         buck4 |-> <<"A", "rho", "C", "r_detach", "r_min", "r_attach">> ]
 Names == DOMAIN Sig
+\* the four-range Buckingham form exists as a factory (R2) and as 'as.buck4 ...' in a section (R3) only
+FactoryOnly == {"buck4"}
+RouteExists(nm, rt) == nm \in FactoryOnly => rt \in {"R2", "R3"}
 Arity(nm) == IF nm = "polynomial" THEN -1 ELSE Len(Sig[nm])        \* polynomial is variadic
 
 -----------------------------------------------------------------------------
@@ -33,9 +37,10 @@ VARIABLES form, route, given,   \* the parameters the user wrote (abstract token
 vars == <<form, route, given, stage, vec, outcome>>
 Routes == {"R1", "R2", "R3", "R4"}
 
-Init == /\ form \in Names /\ route \in Routes
-        /\ given \in UNION {[1..k -> 1..MaxArity] : k \in 0..MaxArity}
-        /\ \A i, j \in DOMAIN given : i # j => given[i] # given[j]
+Init == /\ form \in Names /\ route \in Routes /\ RouteExists(form, route)
+        \* the machine treats the written parameters as opaque tokens: the ascending and the descending labelling of every
+        \* length cover it (all injective labellings were 740 000 initial states for arity 7 and add nothing)
+        /\ given \in UNION {{[i \in 1..k |-> i], [i \in 1..k |-> k + 1 - i]} : k \in 0..MaxArity}
         /\ stage = "start" /\ vec = <<>> /\ outcome = "pending"
 
 \* R3 / R4 check the number of arguments against the signature before anything is evaluated
@@ -123,10 +128,23 @@ SpecialCases ==
   \cup {[form |-> "exp_spline", p |-> <<R(0), b1, R(0), R(0), R(0), R(0), c>>, x |-> R(0), v |-> RAdd(ROne, c)] : b1 \in {R(3), R(-2)}, c \in {R(1), <<-7, 2>>}}
   \cup {[form |-> "sqrt", p |-> <<g>>, x |-> R(k * k), v |-> RMul(g, R(k))] : g \in {R(3), <<-5, 2>>}, k \in 0..4}
 
+\* four-range Buckingham: A exp(-r/rho) up to r_detach, -C/r^6 from r_attach, between them a fifth-order and (from r_min) a
+\* third-order polynomial fixed by the ten equations of PolyRows!Buck4Rows (value, slope and curvature continuous at the
+\* three knots, stationary at r_min).  The rows are exact; the harness solves them exactly with the documented end pieces.
+Buck4Knots == { << <<6, 5>>, <<21, 10>>, <<13, 5>> >>, <<R(1), R(2), R(3)>>, << <<1, 2>>, <<3, 2>>, <<5, 2>> >> }
+Buck4Piece(kn, x) == IF RLe(x, kn[1]) THEN "bornmayer" ELSE IF RLe(kn[3], x) THEN "dispersion" ELSE IF RLt(x, kn[2]) THEN "quintic" ELSE "cubic"
+Buck4Xs(kn) == {<<n, 4>> : n \in 1..16} \cup {kn[1], kn[2], kn[3]}
+Buck4Cases ==
+  {[form |-> "buck4", p |-> <<a, rho, c, kn[1], kn[2], kn[3]>>, rows |-> Buck4Rows(kn),
+    xs |-> SetToSeq({[x |-> x, piece |-> Buck4Piece(kn, x)] : x \in Buck4Xs(kn)})] :
+      a \in {R(0), R(1000), <<56363, 5>>}, rho \in {<<3, 10>>, <<1363, 10000>>}, c \in {R(0), R(32), R(134), R(-5)}, kn \in Buck4Knots}
+
 Emit == IF "EMIT" \in DOMAIN IOEnv /\ IOEnv.EMIT = "1"
         THEN /\ ndJsonSerialize(IOEnv.VERIF_OUT \o "/exact.ndjson", SetToSeq(ExactCases \cup ExponentialCases))
              /\ ndJsonSerialize(IOEnv.VERIF_OUT \o "/special.ndjson", SetToSeq(SpecialCases))
              /\ ndJsonSerialize(IOEnv.VERIF_OUT \o "/sig.ndjson", <<[n \in Names |-> Sig[n]]>>)
+             /\ ndJsonSerialize(IOEnv.VERIF_OUT \o "/buck4.ndjson", SetToSeq(Buck4Cases))
+             /\ ndJsonSerialize(IOEnv.VERIF_OUT \o "/factoryonly.ndjson", SetToSeq(FactoryOnly))
         ELSE TRUE
 ASSUME Emit
 =============================================================================
